@@ -34,6 +34,7 @@ func TestF2ContentLengthForwarded(t *testing.T) {
 	seen = -2
 	req = httptest.NewRequest("POST", "/vanguard.test.v1.LibraryService/GetBook", bytes.NewReader(body))
 	req.Header.Set("Content-Type", "application/proto")
+	req.Header.Set("Connect-Protocol-Version", "1")
 	tr.ServeHTTP(httptest.NewRecorder(), req)
 	if seen != int64(len(body)) {
 		t.Errorf("pass-through handler saw ContentLength %d, client declared %d", seen, len(body))
